@@ -295,6 +295,8 @@ class Processor:
             self._apply_change(
                 yaml_path, node_coord.node, value,
                 value_format=value_format, tag=tag, **kwargs)
+            # The wrapper's own coordinates name a place in the result list
+            return
 
         if (isinstance(node_coord.node, list)
             and len(node_coord.node) > 0
